@@ -15,6 +15,8 @@ cd /repo && git apply $out/patch.diff || { echo "patch does not apply to /repo";
 pk=$(git diff --name-only | xargs -n1 dirname | sort -u | sed 's|^|./|' | tr '\n' ' ')
 echo "--- existing tests of $pk with the change"; go test -count=1 $pk 2>&1 | tail -4
 cd /verif
+rm -rf .build/evidence.keep; cp -a evidence .build/evidence.keep   # seeded runs must not leave their evidence behind
 for c in $checks; do echo "--- check $c quick"; ./check $c quick 2>&1 | tail -4 | cut -c1-300; echo "exit=$?"; done
+rm -rf evidence; mv .build/evidence.keep evidence
 git -C /repo checkout -- . ; git -C /repo status --short | head -3
 echo "demo_with_rc=$rc1 demo_without_rc=$rc2"
